@@ -51,6 +51,11 @@ func (m *MTProto) makeAuthKey() error { // nolint don't know how to make method 
 
 	// (encoding) p_q_inner_data
 	pq := big.NewInt(0).SetBytes(res.Pq)
+	// pq has to be a product of two primes below 2^32. SplitPQ divides by pq and by pq-1 and never returns
+	// for a prime number, so a server must not be able to make us factorize anything else
+	if pq.Cmp(big.NewInt(1)) <= 0 || pq.BitLen() > 64 || pq.ProbablyPrime(20) { //nolint:gomnd see above
+		return errors.New("handshake: pq is not a product of two primes")
+	}
 	p, q := math.SplitPQ(pq)
 	nonceSecond := tl.RandomInt256()
 	nonceServer := res.ServerNonce
@@ -109,7 +114,13 @@ func (m *MTProto) makeAuthKey() error { // nolint don't know how to make method 
 	}
 
 	// this apparently is just part of diffie hellman, so just leave it as it is, hope that it will just work
-	_, gB, gAB := math.MakeGAB(dhi.G, big.NewInt(0).SetBytes(dhi.GA), big.NewInt(0).SetBytes(dhi.DhPrime))
+	gA, dhPrime := big.NewInt(0).SetBytes(dhi.GA), big.NewInt(0).SetBytes(dhi.DhPrime)
+	// both sides are to check that g_a is greater than 1 and less than dh_prime - 1 (this also refuses the
+	// moduli 0..3: big.Int.Exp with a zero modulus does not reduce at all)
+	if gA.Cmp(big.NewInt(1)) <= 0 || gA.Cmp(big.NewInt(0).Sub(dhPrime, big.NewInt(1))) >= 0 {
+		return errors.New("handshake: g_a is out of range")
+	}
+	_, gB, gAB := math.MakeGAB(dhi.G, gA, dhPrime)
 
 	// auth_key is the 2048-bit number g^ab as 256 big-endian bytes, and the nonces are fixed-width byte
 	// strings too: big.Int.Bytes() would drop their leading zero bytes
